@@ -85,7 +85,34 @@ pub fn run_behaviour(b: &Value) -> Outcome {
                 let dir = call["dir"].as_str().unwrap_or("F");
                 let before = data.clone();
                 out.evaluations += 1;
-                match apply_guarded(&ctx, *h, dir, &mut data) {
+                let want_plan = call["expect"]["plan"].is_array();
+                if want_plan {
+                    geodesy::verif::drain();
+                    geodesy::verif::enable(true);
+                }
+                let applied = apply_guarded(&ctx, *h, dir, &mut data);
+                if want_plan {
+                    geodesy::verif::enable(false);
+                    // the elementary operators actually dispatched, with their effective direction
+                    let mut seen: Vec<Value> = vec![];
+                    for e in geodesy::verif::drain() {
+                        if e.kind != "dispatch" {
+                            continue;
+                        }
+                        let get = |k: &str| e.fields.iter().find(|f| f.0 == k).map(|f| f.1.clone()).unwrap_or_default();
+                        if get("name") == "pipeline" {
+                            continue;
+                        }
+                        let fwd = (get("req") == "F") != (get("inverted") == "true");
+                        seen.push(json!([get("name"), if fwd { "F" } else { "I" }]));
+                    }
+                    let want: Vec<Value> = call["expect"]["plan"].as_array().unwrap().iter()
+                        .map(|p| json!([p["def"].as_str().unwrap_or("").split_whitespace().next().unwrap_or(""), p["dir"]])).collect();
+                    if seen != want {
+                        out.fails.push(json!({"call":ci,"what":"plan","dir":dir,"expected":want,"observed":seen}));
+                    }
+                }
+                match applied {
                     Err(p) => out.fails.push(json!({"call":ci,"what":"panic","api":"apply","dir":dir,"msg":p})),
                     Ok(Err(e)) => out.fails.push(json!({"call":ci,"what":"apply_error","err":e})),
                     Ok(Ok(n)) => {
